@@ -32,11 +32,16 @@ Open Scope N_scope.
 
 Inductive end_mode := Dollar | Strict.            (* `$` vs `\Z` *)
 Inductive prop_mode := FirstCharOnly | FullRule.  (* _validate_props as found vs with the naming rule *)
+Inductive hyphen_mode := AnyHyphens | SingleHyphens.  (* TYPE_21_REGEX as found admits "--"; repaired: single hyphens *)
+Inductive extid_mode := ViaTypeRegex | OwnRegex.  (* 2.1 `extension-definition--...` names: through _validate_type, or
+                                                     through EXTENSION_DEFINITION_ID_REGEX of the repaired _register_extension *)
 
-Record variant := { end20 : end_mode; end21 : end_mode; pmode : prop_mode }.
+Record variant := { end20 : end_mode; end21 : end_mode; pmode : prop_mode; hyph21 : hyphen_mode; extid : extid_mode }.
 
-Definition as_found : variant := {| end20 := Dollar; end21 := Dollar; pmode := FirstCharOnly |}.
-Definition repaired : variant := {| end20 := Strict; end21 := Strict; pmode := FullRule |}.
+Definition as_found : variant :=
+  {| end20 := Dollar; end21 := Dollar; pmode := FirstCharOnly; hyph21 := AnyHyphens; extid := ViaTypeRegex |}.
+Definition repaired : variant :=
+  {| end20 := Strict; end21 := Strict; pmode := FullRule; hyph21 := SingleHyphens; extid := OwnRegex |}.
 
 (* ------------------------------------------------------------------ *)
 (* character classes                                                   *)
@@ -101,13 +106,24 @@ Definition re_type20 (m : end_mode) (s : ustring) : bool := with_end m lang20 s.
    an optional hyphen): a letter, then any characters of [a-z0-9-] -- the
    first group can stop after the first letter and the second group takes
    any mixture of the three classes.                                          *)
-Definition lang21 (s : ustring) : bool :=
+Definition lang21_any (s : ustring) : bool :=
   match s with
   | [] => false
   | c :: t => is_lower c && forallb is_type_char t
   end.
 
-Definition re_type21 (m : end_mode) (s : ustring) : bool := with_end m lang21 s.
+(* repaired TYPE_21_REGEX  ^[a-z][a-z0-9]*(-[a-z0-9]+)*-?  : a letter, after which the
+   automaton of TYPE_REGEX continues from inside its first run *)
+Definition lang21_single (s : ustring) : bool :=
+  match s with
+  | [] => false
+  | c :: t => is_lower c && lang20_from QRun t
+  end.
+
+Definition lang21 (h : hyphen_mode) : ustring -> bool :=
+  match h with AnyHyphens => lang21_any | SingleHyphens => lang21_single end.
+
+Definition re_type21 (m : end_mode) (h : hyphen_mode) (s : ustring) : bool := with_end m (lang21 h) s.
 
 (* PREFIX_21_REGEX  ^[a-z].*  -- `.*` takes whatever follows (match, not fullmatch) *)
 Definition re_prefix21 (s : ustring) : bool :=
@@ -125,15 +141,20 @@ Open Scope string_scope.
 Definition known_type20_texts : list (string * end_mode) :=
   [ ("^-?[a-z0-9]+(-[a-z0-9]+)*-?$", Dollar);
     ("^-?[a-z0-9]+(-[a-z0-9]+)*-?\Z", Strict) ].
-Definition known_type21_texts : list (string * end_mode) :=
-  [ ("^([a-z][a-z0-9]*)+([a-z0-9-]+)*-?$", Dollar);
-    ("^([a-z][a-z0-9]*)+([a-z0-9-]+)*-?\Z", Strict);
-    ("^[a-z][a-z0-9-]*$", Dollar);
-    ("^[a-z][a-z0-9-]*\Z", Strict) ].
+Definition known_type21_texts : list (string * (end_mode * hyphen_mode)) :=
+  [ ("^([a-z][a-z0-9]*)+([a-z0-9-]+)*-?$", (Dollar, AnyHyphens));
+    ("^([a-z][a-z0-9]*)+([a-z0-9-]+)*-?\Z", (Strict, AnyHyphens));
+    ("^[a-z][a-z0-9-]*$", (Dollar, AnyHyphens));
+    ("^[a-z][a-z0-9-]*\Z", (Strict, AnyHyphens));
+    ("^[a-z][a-z0-9]*(-[a-z0-9]+)*-?$", (Dollar, SingleHyphens));
+    ("^[a-z][a-z0-9]*(-[a-z0-9]+)*-?\Z", (Strict, SingleHyphens)) ].
 Definition known_prefix21_texts : list string := [ "^[a-z].*" ].
 Definition known_propname_texts : list (option string * prop_mode) :=
   [ (None, FirstCharOnly);
     (Some "^[a-z0-9_]{3,250}\Z", FullRule) ].
+Definition known_extid_texts : list (option string * extid_mode) :=
+  [ (None, ViaTypeRegex);
+    (Some "^extension-definition--[a-z0-9-]*\Z", OwnRegex) ].
 
 Fixpoint assoc_str {A} (k : string) (l : list (string * A)) : option A :=
   match l with
@@ -155,11 +176,13 @@ Fixpoint assoc_optstr {A} (k : option string) (l : list (option string * A)) : o
   end.
 
 (* which variant a set of regex texts denotes (None: a text the recognisers were not written for) *)
-Definition variant_of_texts (t20 t21 pfx : string) (pname : option string) : option variant :=
+Definition variant_of_texts (t20 t21 pfx : string) (pname extidt : option string) : option variant :=
   match assoc_str t20 known_type20_texts, assoc_str t21 known_type21_texts,
-        existsb (String.eqb pfx) known_prefix21_texts, assoc_optstr pname known_propname_texts with
-  | Some e20, Some e21, true, Some pm => Some {| end20 := e20; end21 := e21; pmode := pm |}
-  | _, _, _, _ => None
+        existsb (String.eqb pfx) known_prefix21_texts, assoc_optstr pname known_propname_texts,
+        assoc_optstr extidt known_extid_texts with
+  | Some e20, Some (e21, h21), true, Some pm, Some xm =>
+      Some {| end20 := e20; end21 := e21; pmode := pm; hyph21 := h21; extid := xm |}
+  | _, _, _, _, _ => None
   end.
 Close Scope string_scope.
 
@@ -178,7 +201,7 @@ Definition type_len_max : nat := 250.
 Definition validate_type (vt : variant) (V : version) (s : ustring) : bool :=
   (match V with
    | V20 => re_type20 (end20 vt) s
-   | V21 => re_type21 (end21 vt) s
+   | V21 => re_type21 (end21 vt) (hyph21 vt) s
    end)
   && (type_len_min <=? List.length s)%nat && (List.length s <=? type_len_max)%nat.
 
@@ -354,6 +377,20 @@ Definition s_extdef : ustring :=                                                
   [101;120;116;101;110;115;105;111;110;45;100;101;102;105;110;105;116;105;111;110;45;45].
 Definition s_extension_type : ustring := [101;120;116;101;110;115;105;111;110;95;116;121;112;101].  (* "extension_type" *)
 
+(* the first check of _register_extension.  As found: _validate_type.  Repaired
+   (proposed_fixes/C19-type-name-double-hyphen-21.diff): in 2.1 a name that starts
+   with "extension-definition--" is matched against EXTENSION_DEFINITION_ID_REGEX
+   (^extension-definition--[a-z0-9-]*\Z) and may be at most 250 characters long;
+   every other name goes through _validate_type                                *)
+Definition validate_ext_name (vt : variant) (V : version) (n : ustring) : bool :=
+  match extid vt, V with
+  | OwnRegex, V21 =>
+      if ustr_prefix s_extdef n
+      then forallb is_type_char (skipn (List.length s_extdef) n) && (List.length n <=? type_len_max)%nat
+      else validate_type vt V n
+  | _, _ => validate_type vt V n
+  end.
+
 (* class attribute `extension_type` of the decorated class *)
 Inductive exttype := XNewSdo | XNewSco | XNewSro | XPropertyExt | XToplevel.
 
@@ -367,7 +404,7 @@ Definition register_extension (vt : variant) (r : registry) (V : version) (n : u
                 | Some _ => dict_update [(s_extension_type, KPlain)] props
                 end in
   let toplevel := match xt with Some XToplevel => Some props | _ => None end in
-  if negb (validate_type vt V n) then Raise EValue
+  if negb (validate_ext_name vt V n) then Raise EValue
   else if version_eqb V V21 && negb (ustr_suffix s_dash_ext n || ustr_prefix s_extdef n) then Raise EValue
   else if is_nil nested || match toplevel with Some [] => true | _ => false end then Raise EValue
   else
